@@ -70,7 +70,7 @@ ASSUMPTIONS = [
     '|x|<=4, ACOS(COS x) not within 0.01 of 0 or pi but at the end points themselves)',
     'PV: rate > -1, type in {omitted,0,1}, future omitted = 0; integer periods are judged with exact '
     'Fractions, the half-integer period with floats; residual <= 1e-9 * (sum of the magnitudes of the three '
-    'terms); numeric text / logicals are not demanded for PV; nothing is demanded when (1+r)^n leaves '
+    'terms); numeric text and logicals are read as numbers by PV as by every other function (C06; checked on a sub-product), a type that is not a number must give an error; nothing is demanded when (1+r)^n leaves '
     '1e-300..1e300 (e.g. rate -0.9 over 360 periods)',
     'RAND/RANDBETWEEN: the seam replaces mathtrig.random (module or function) and, if present, the module '
     'attributes randint/randrange; random() answers {0, 2^-53, 0.5, 1-2^-53,...}, randint/randrange answer '
@@ -767,7 +767,9 @@ class Pv(Sub):
     name = 'c16.pv'
     rule = ('PV on the full product rates x periods x payments x (future omitted | futures x type in {omitted,'
             '0,1}), as variables and as literals: annuity residual pv(1+r)^n + pmt(1+r*type)((1+r)^n-1)/r + fv '
-            '(linear form at r=0) in exact Fractions; non-trivial = r != 0, n != 0 and (pmt != 0 or fv != 0)')
+            '(linear form at r=0) in exact Fractions; on a 4 x 4 x 2 x 2 x 2 sub-product also with every argument as numeric text, '
+            'with the type as numeric text ("0", "1", "1.0") and as a logical, and with a type that is not a number (text, error '
+            'values: an error is demanded); non-trivial = r != 0, n != 0 and (pmt != 0 or fv != 0)')
     min_cases = 1500
     min_nontrivial = 700
     min_classes = 4
@@ -782,12 +784,42 @@ class Pv(Sub):
                         for fv in p['futs']:
                             for t in (None, 0, 1):
                                 yield [form, r, n, pay, fv, t]
+        for r in (0, 0.05, -0.5, 1e-9):
+            for n in (0, 1, 10, 2.5):
+                for pay in (100, -250.5):
+                    for fv in (0, 1000):
+                        for t in (0, 1):
+                            for form in ('s', 'z', 'b'):
+                                yield [form, r, n, pay, fv, t]
+                        yield ['bad', r, n, pay, fv, 0]
 
     def check(self, env, case):
         form, r, n, pay, fv, t = case
         args = [r, n, pay] + ([fv] if fv is not None else []) + ([t] if t is not None else [])
         names = ['xr', 'xn', 'xp', 'xf', 'xt'][:len(args)]
-        if form == 'v':
+        if form == 'bad':
+            # the payment-timing argument is an argument like the others: not a number -> an error, never a number
+            for bad in ('"x"', '1/0', 'SQRT(-1)', '"0x"'):
+                f = call('PV', names[:4] + [bad])
+                out = env.evo(f, dict(zip(names[:4], args[:4])))
+                env.nt()
+                if out[0] != 'e':
+                    return fail('%s with %s: the type argument is not a number, expected an error value, got %s' % (
+                        f, ', '.join('%s=%r' % nv for nv in zip(names, args)), short(out)), ['e', 'any'], out)
+            return None
+        if form in ('s', 'z', 'b'):
+            # numeric text and logicals are numbers here as well: every argument as text / the type as text / the type as a logical
+            given = list(args)
+            if form == 's':
+                given = [repr(a) for a in args]
+            elif form == 'z':
+                given[4] = ('%d' if n != 10 else '%d.0') % t
+            else:
+                given[4] = bool(t)
+            f = call('PV', names)
+            out = env.evo(f, dict(zip(names, given)))
+            what = '%s with %s' % (f, ', '.join('%s=%r' % nv for nv in zip(names, given)))
+        elif form == 'v':
             f = call('PV', names)
             out = env.evo(f, dict(zip(names, args)))
             what = '%s with %s' % (f, ', '.join('%s=%r' % nv for nv in zip(names, args)))
